@@ -53,6 +53,13 @@ def fn_targ(f, i):
     return None
 
 
+def precheck(ctx):
+    # programs that must build: prototype selection by the arguments as passed (value category, constness); judged before extraction so
+    # that a change which also stops the witness units from compiling is reported as what it is
+    ctx.rule('C14.W', 'client programs invoking / dispatching / enqueuing with lvalue, rvalue and const arguments build and select the listed prototype')
+    witness.check_static_unit(ctx, 'C14.W', os.path.join(extract.VERIF, 'witness', 's_heter_calls.cpp'), 'prototype selection by argument value category')
+
+
 def check(ctx):
     ctx.rule('C14.H1', 'first-match prototype selection agrees with an independent oracle (generated static_assert families)')
     ctx.rule('C14.H2', 'typed view of a queue slot only after its tag was checked; slot never copied out')
